@@ -8,16 +8,20 @@ package alpine
 //@ func compareInt
 //@   comparator a ~ b                                     [C01]
 //@   ensures result == 0 ==> a == b                       [C01]
-//@   ensures result == (a < b ? -1 : (a > b ? 1 : 0))     [C03 C14]
+//@   ensures result == (a < b ? -1 : (a > b ? 1 : 0))     [C01 C03 C14]   // C01: compareSuffixArrays orders by length with the same function
 
 //@ func compareLetters
 //@   comparator a ~ b                                     [C01]
 
 //@ func compareSuffixes
 //@   comparator a ~ b                                     [C01]
+//@   ensures no-suffix-is-distinct: (a.name == "") != (b.name == "") ==> result != 0   [C01]
+
+// Parsed suffixes always carry a name ([a-z]+), so the empty name only stands for "no suffix".
+//@ spec namedSuffixes(a []suffix) bool = forall i int :: 0 <= i && i < len(a) ==> a[i].name != ""
 
 //@ func compareSuffixArrays
-//@   comparator a ~ b                                     [C01]
+//@   comparator a ~ b where namedSuffixes(a) && namedSuffixes(b)   [C01]
 
 //@ func compareNumericArraysNumeric
 //@   comparator a ~ b                                     [C01]
